@@ -75,3 +75,36 @@ def drain_grants_the_drain_timeout():
     d2["deploy_timeout"] = SEC
     return {"steps": [dep("c1", [b"ta:80"]), req("r1", "delay:%d" % (3 * SEC)), {"op": "sleep", "ns": SEC // 10}, d2,
                       {"op": "sleep", "ns": 4 * SEC}]}
+
+
+def drain_covers_unhealthy_targets():
+    """a request is in flight on a target that has since failed a probe (out of rotation): deploy / pause must still drain
+    that target — wait for the request or cut it off at the deadline"""
+    flap = {"op": "probe_script", "targets": [{"name": H(b"ta:80"), "probes": ["refused"]}]}
+    return {"steps": [dep("c1", [b"ta:80", b"tz:80"]), req("r1", "delay:%d" % (10 * SEC)), req("r2", "delay:%d" % (10 * SEC)),
+                      flap, {"op": "sleep", "ns": 2 * SEC}, dep("c2", [b"tb:80"], drain=SEC), {"op": "sleep", "ns": 2 * SEC},
+                      req("r3"), {"op": "sleep", "ns": 12 * SEC}]}
+
+
+def pause_covers_unhealthy_targets():
+    flap = {"op": "probe_script", "targets": [{"name": H(b"ta:80"), "probes": ["status:500"]}]}
+    return {"steps": [dep("c1", [b"ta:80", b"tz:80"]), req("r1", "hang"), req("r2", "hang"), flap, {"op": "sleep", "ns": 2 * SEC},
+                      {"op": "pause", "id": "c2", "name": H(b"web"), "fail_after": 10 * SEC, "drain_timeout": SEC},
+                      {"op": "sleep", "ns": 3 * SEC}, {"op": "resume", "id": "c3", "name": H(b"web")}, {"op": "sleep", "ns": SEC}]}
+
+
+def drain_cuts_connections_upgraded_during_the_drain():
+    """an upgrade request is claimed before the drain begins, its 101 arrives while the target drains: the connection
+    must be cut at the deadline like any other request still running"""
+    return {"steps": [dep("c1", [b"ta:80"]), req("r1", "upgrade:%d" % (SEC // 2)), req("r2", "upgrade"),
+                      {"op": "sleep", "ns": SEC // 10}, dep("c2", [b"tb:80"], drain=2 * SEC), {"op": "sleep", "ns": 3 * SEC},
+                      req("r3"), {"op": "sleep", "ns": SEC}]}
+
+
+def stale_probe_result_after_the_deploy():
+    """the new target's first probe is answered late and negatively, the second at once and positively; requests arrive
+    after the deploy, around the moment the late answer comes in"""
+    d2 = dep("c2", [b"tb:80"], asyn=True)
+    d2["targets"][0]["probes"] = ["slow:%d:500" % (3 * SEC // 2), "ok"]
+    return {"steps": [dep("c1", [b"ta:80"]), d2, {"op": "sleep", "ns": 16 * SEC // 10}, req("r1"), {"op": "sleep", "ns": SEC // 5},
+                      req("r2"), {"op": "sleep", "ns": SEC // 10}, req("r3"), {"op": "sleep", "ns": 3 * SEC}, req("r4")]}
